@@ -46,6 +46,14 @@ THEOREMS["C16"] = [("Flurry.Props.C16", [
 THEOREMS["C17"] = [("Flurry.Props.C17", [
     "Flurry.C17.inserting_needs_send_sync", "Flurry.C17.lookup_unbounded", "Flurry.C17.binentry_conditional"])]
 
+THEOREMS["C01"] = [("Flurry.Props.C01", [
+    "Flurry.C01.certificate_sound", "Flurry.C01.decision_correct", "Flurry.C01.not_linearizable_iff",
+    "Flurry.C01.linearization_points", "Flurry.C01.no_resurrection", "Flurry.C01.reads_pure",
+    "Flurry.C01.insert_then_read", "Flurry.C01.remove_then_read", "Flurry.C01.final_read"])]
+THEOREMS["C08"] = [("Flurry.Props.C08", [
+    "Flurry.C08.counter_no_lost_update", "Flurry.C08.absent_not_applied", "Flurry.C08.replaces_what_it_read",
+    "Flurry.C08.removal_is_atomic"])]
+
 TIERS = {
     "quick": {"seq_cases": 400, "seq_ops": 60, "search_mult": 6, "conc_cases": 1500},
     "thorough": {"seq_cases": 20000, "seq_ops": 160, "search_mult": 3, "conc_cases": 60000},
@@ -535,7 +543,33 @@ def check_C17(R):
                   "inserting_entry_points": sorted(ins), "exhaustive": True})
 
 
+PARTIAL_CONC = ("PARTIAL: the theorems cover the specification, the linearization-point lemma and the soundness AND completeness of the "
+                "decision procedure applied to recorded histories; that every interleaving of the implementation produces such a history is "
+                "explored by the deterministic scheduler on the real code (testing), not proved")
+
+
+def check_C01(R):
+    R.trusted = TRUSTED_COMMON + ["the deterministic scheduler (/verif/harness/src/sched.rs): only the thread holding the baton runs, every hook is a preemption point, invocation/response times are positions in the global event order",
+                                  "locality: linearizability is decided per key (operations of the per-key API touch one key)"]
+    R.assumptions = [PARTIAL_CONC, "sequentially consistent exploration: weak-memory reorderings are not explored (see C15)"]
+    translator_step(R)
+    lean_step(R, "C01")
+    if harness_step(R):
+        conc_step(R, "C01")
+
+
+def check_C08(R):
+    R.trusted = TRUSTED_COMMON + ["the deterministic scheduler (/verif/harness/src/sched.rs)"]
+    R.assumptions = [PARTIAL_CONC, "the closure passed by the harness counts its own invocations and records the value it was shown"]
+    translator_step(R)
+    lean_step(R, "C08")
+    if harness_step(R):
+        conc_step(R, "C08")
+
+
 CHECKS = {
+    "C01": check_C01,
+    "C08": check_C08,
     "C16": check_C16,
     "C17": check_C17,
     "C06": check_C06,
